@@ -73,6 +73,38 @@ def introspect_job(j):
                 if got != want:
                     genrun.add_viol(viol, ({"kind": "introspection-interference", "what": what, "contexts": _json.dumps([contexts[a], contexts[b]], sort_keys=True, default=list)[:160]},
                                            {"got": got[:3000], "alone_on_a_fresh_engine": want[:3000]}))
+    # a schema that refuses introspection: the refusal holds whatever other requests are in flight / have finished meanwhile
+    import introworld
+    for k in range(len(introworld.REFUSED)):
+        text, key, token = introworld.REFUSED[k]
+        eng = introworld.cook()
+        slowq = "{ slow " + text.lstrip()[1:] if text.lstrip().startswith("{") else None
+
+        async def overlapped():
+            # the other request starts first and finishes while this one is still before its introspection field
+            return await asyncio.gather(eng.execute("{ quick }"), eng.execute(slowq or text))
+        n += 2
+        other, mine = main_loop().run(overlapped())
+        for m in introworld.check_refusal(slowq or text, key, token, mine):
+            genrun.add_viol(viol, ({"kind": "introspection-interference", "what": "refusal with another request in flight", "contexts": text[:60]}, {"response": repr(mine)[:1500], "complaint": m}))
+        if other != {"data": {"quick": 2}}:
+            genrun.add_viol(viol, ({"kind": "introspection-interference", "what": "plain request beside a refused one", "contexts": text[:60]}, {"response": repr(other)[:800]}))
+    # an error coercer completing the error in place: every response carries its own mark, once
+    async def counting(exception, error):
+        error.setdefault("extensions", {})
+        if isinstance(error["extensions"], dict):
+            error["extensions"]["seen"] = error["extensions"].get("seen", 0) + 1
+        return error
+    eng = introworld.cook(error_coercer=counting)
+    for q in ("{ nope }", "{ quick(zz: 1) }", '{ __type(name: "Query") { name } }'):
+        async def twice():
+            return await asyncio.gather(eng.execute(q), eng.execute(q))
+        n += 3
+        rs = list(main_loop().run(twice())) + [main_loop().run(eng.execute(q))]
+        for r in rs:
+            seen = [(e.get("extensions") or {}).get("seen") for e in (r.get("errors") or [])]
+            if not seen or any(x != 1 for x in seen):
+                genrun.add_viol(viol, ({"kind": "introspection-interference", "what": "in-place error coercer: marks of other requests in the error", "contexts": q}, {"responses": repr(rs)[:2000]}))
     return {"job": j, "tlc": [], "evaluations": n, "distinct": [], "samples": [], "violations": viol, "extra": {"introspection_requests_in_flight_together": n}}
 
 
